@@ -146,6 +146,24 @@ STRENGTHENED = {
     "C02-12": "a second evaluation of the same network after the source arrays were updated in place (C18 caught it as registered)",
     "C07-11": "one load case as an (n, 1) block through the wrapped solver, a one-dof system (C07); single-column blocks in C06",
     "C11-12": "a complex-conjugate pair with a user sorting function that orders by the imaginary part",
+    "C05-11": "items inside the property: the rhs array itself handed over as initial guess (symbolic items, concrete regression items); found from the seeder's report before the first evaluation",
+    "C05-12": "SolverDenseLDL constructed with the matrix (constructor shortcut); added from the seeder's report before the first evaluation",
+    "C06-11": "block with a dependent column followed by a new one; added from the seeder's report before the first evaluation",
+    "C06-12": "a second wrapper object used in between; added from the seeder's report before the first evaluation",
+    "C08-11": "clause: the domain handed to an assembly module keeps its element sizes; added before the first evaluation",
+    "C08-12": "boundary-condition set {0}; added before the first evaluation",
+    "C11-11": "largest admissible number of modes of the symmetric ARPACK driver; added before the first evaluation",
+    "C12-12": "per-node operators with two and three leading axes; added before the first evaluation",
+    "C14-12": "clause: a direction given as an array keeps its values; added before the first evaluation",
+    "C15-11": "contract with negative indices and boolean masks; added before the first evaluation",
+    "C16-12": "SoftMinMax with scaling and an active set; added before the first evaluation",
+    "C17-11": "concrete regression items for the volume accuracy of the bisection (not a solver verdict); added before the first evaluation",
+    "C17-12": "network used before the call (sensitivities left set); added before the first evaluation",
+    "C18-12": "two different index arrays of six entries on one base; added before the first evaluation",
+    "C19-11": "2-D inputs as transposed views (report order follows memory order); added before the first evaluation",
+    "C19-12": "a module that forgets an input; added before the first evaluation",
+    "C20-11": "header numbers written with full precision (format specification of the symbolic token, generic-value probe); added before the first evaluation",
+    "C20-12": "csv extension in upper / mixed case; added before the first evaluation",
 }
 NOT_CAUGHT = {
     "C10-3": "outside the claim: the fault needs integer-typed design vectors (np.concatenate keeps int64, np.zeros_like then truncates "
@@ -171,7 +189,8 @@ for d in sorted(glob.glob(os.path.join(HERE, "seeded", "C*-*"))):
     sid = os.path.basename(d)
     m = json.load(open(os.path.join(d, "meta.json")))
     if sid in STRENGTHENED:
-        m["first_evaluation"] = "missed by the check as first registered"
+        m["first_evaluation"] = ("not evaluated against the earlier check (strengthened from the seeder's report first)"
+                                 if "before the first evaluation" in STRENGTHENED[sid] else "missed by the check as first registered")
         m["strengthening"] = STRENGTHENED[sid]
     if sid in NOT_CAUGHT:
         m["not_caught_because"] = NOT_CAUGHT[sid]
